@@ -25,6 +25,19 @@ CHECKS = {
         'Blind to defects identical under all schedules; post-error state of '
         'an inspector that raised is outside the statement; streams <= 3 MiB.',
         'DESIGN.md section 4 C01'),
+    'C07': (
+        'round trip against layout-built ground truth + prefix enumeration '
+        '(Hypothesis + exhaustive sweeps)',
+        'exploration',
+        'Declared sizes over each field\'s full range x admissible layouts x '
+        'schedules: virtual_size after finish() equals the size the builder '
+        'wrote; every proper prefix of small images and boundary-aimed / '
+        'sampled prefixes of ISO/VMDK/VHDX for the "0 while unknown" clause. '
+        'Sampled (edge-value sweeps are complete over the listed edge set).',
+        'Trusts imggen\'s reading of the format documents; in-between '
+        'prefixes (field present, structure not complete) may report 0 or '
+        'the size.',
+        'DESIGN.md section 4 C07'),
     'C13': (
         'model-based testing: exhaustive short histories + Hypothesis '
         'rule-based state machine against a reference model',
